@@ -91,7 +91,7 @@ CHECKS = {
 NA = {}
 
 # checks that have been validated silent on the unchanged tree
-READY = {"C01","C02","C03","C04","C05","C06","C07","C08","C09","C11","C13","C14","C15","C17","C18","C20"}
+READY = {"C%02d" % i for i in range(1, 21)}
 
 def main():
     checks = []
